@@ -241,6 +241,28 @@ def one(ctx, c, setname, a, transports, do_transports, rng):
                 if err is None and (ev["in"] is not cmd2.datain or ev["out"] is not cmd2.dataout):
                     ctx.fail("C03:%s.buffer_identity.%s" % (c.name, tname), "binding received other buffer objects than the command carries",
                              {"cmd": c.name, "args": a, "transport": tname})
+                if err is None:
+                    # after the facade returned, and at a second hand-off of the same command object (retry), the buffers
+                    # must still be what the CDB announces -- also when the first reply was short (SG_IO residual)
+                    nt2 = check_buffers(ctx, c, setname, tname + ".after_return", full, cmd2.cdb, cmd2.datain, cmd2.dataout)
+                    if tname == "sgio" and not isinstance(cmd2.datain, Huge):
+                        import sys as _sys
+
+                        sg = _sys.modules["sgio"]
+                        sg.resid = lambda e: (len(e["in"]) * 2) // 3 if e["in_len"] else 0
+                        try:
+                            del log[:]
+                            dev.execute(cmd2)
+                            sg.resid = None
+                            dev.execute(cmd2)
+                            if len(log) == 2:
+                                check_buffers(ctx, c, setname, "sgio.re_execution_after_short_reply", full, log[1]["cdb"], log[1]["in"], log[1]["out"])
+                                ctx.count("re_executions_checked")
+                        except Exception as e:  # noqa: BLE001
+                            ctx.fail("C03:%s.re_execution_raises.%s" % (c.name, type(e).__name__), "re-executing the command raised %s" % e,
+                                     {"cmd": c.name, "args": a}, exc=e)
+                        finally:
+                            sg.resid = None
                 if tname == "iscsi" and isinstance(ev["in"], BYTESLIKE) and isinstance(ev["out"], BYTESLIKE):
                     li, lo = len(ev["in"]), len(ev["out"])
                     want = (2, lo) if lo else ((1, li) if li else (0, 0))
@@ -251,7 +273,7 @@ def one(ctx, c, setname, a, transports, do_transports, rng):
 
 def finalize(merged, tier):
     c = merged["counters"]
-    for k in ("objects_checked", "sgio_boundary_events", "iscsi_boundary_events"):
+    for k in ("objects_checked", "sgio_boundary_events", "iscsi_boundary_events", "re_executions_checked"):
         if c.get(k, 0) == 0:
             merged["inconclusive"].append("monitor never reached: %s" % k)
     return {}
